@@ -173,7 +173,7 @@ def _expected_q(u, d, r, b, e):
     return d["proj"](x).at(e) + d["gctx"].at(b, e)
 
 
-@unit("am.decoder.forward.static.multistart", file=AMD, func="AttentionModelDecoder.forward", props=("C14", "C12", "C11"))
+@unit("am.decoder.forward.static.multistart", file=AMD, func="AttentionModelDecoder.forward", props=("C14", "C12", "C11", "C13"))
 def _(u):
     d = _decoder(u, dynamic=False, multistart=True)
     B, N, E, S, rec = d["B"], d["N"], d["E"], d["S"], d["rec"]
@@ -202,7 +202,7 @@ def _(u):
     u.prove("dec.logits.own-row", d["logits"].at(b, n) == ptr(zint(b), zint(n)))
 
 
-@unit("am.decoder.forward.dynamic.multistart", file=AMD, func="AttentionModelDecoder.forward", props=("C14", "C12", "C11"))
+@unit("am.decoder.forward.dynamic.multistart", file=AMD, func="AttentionModelDecoder.forward", props=("C14", "C12", "C11", "C13"))
 def _(u):
     d = _decoder(u, dynamic=True, multistart=True)
     B, N, E, S, R, rec = d["B"], d["N"], d["E"], d["S"], d["R"], d["rec"]
@@ -330,3 +330,102 @@ def _(u):
 @unit("init.svrp.rowlocal", file=INI, func="SVRPInitEmbedding.forward", props=("C14",))
 def _(u):
     _init_unit(u, "SVRPInitEmbedding", dict(_LOCS, skills=(lambda N: (N, 1), "f")), {"init_embed": 3, "init_embed_depot": 2})
+
+
+# ---------------------------------------------------------------------------------------------
+# ConstructivePolicy.forward: the decoding loop and the output dictionary (2-step episode, any batch size)
+# ---------------------------------------------------------------------------------------------
+BASEP = "rl4co/models/common/constructive/base.py"
+DEC = "rl4co/utils/decoding.py"
+
+
+class _Flag:
+    """`done` of the stub environment: all rows finish together after a fixed number of steps (concrete truth value)."""
+
+    def __init__(self, v):
+        self.v = v
+
+    def all(self):
+        return self.v
+
+
+def _policy_forward(u, mode, T=2):
+    B, N = u.dims("B N")
+    logits = [u.tensor(f"step_logits{t}", (B, N), "f") for t in range(T)]
+    masks = [u.tensor(f"step_mask{t}", (B, N), "b") for t in range(T)]
+    for t in range(T):
+        u.requires(u.forall((B,), lambda b, t=t: u.exists((N,), lambda j: masks[t].at(b, j))))
+    rew = u.tensor("env_reward", (B,), "f")
+    given = u.tensor("given_actions", (B, T), "i")
+    u.requires(u.forall((B, T), lambda b, t: AND(given.at(b, t) >= 0, given.at(b, t) < N)))
+    td0 = SymTD({"locs": u.tensor("locs", (B, N, 2), "f"), "action_mask": masks[0], "done": _Flag(False)}, (B,))
+    calls = {"dec": 0, "steps": [], "reward_actions": None}
+
+    class Decoder:
+        def pre_decoder_hook(self, td, env, hidden, num_starts):
+            return td, env, hidden
+
+        def __call__(self, td, hidden, num_starts):
+            t = calls["dec"]
+            calls["dec"] += 1
+            return logits[t], masks[t]
+
+    def env_step(td):
+        calls["steps"].append(td["action"])
+        k = len(calls["steps"])
+        td.data["done"] = _Flag(k >= T)
+        if k < T:
+            td.data["action_mask"] = masks[k]
+        return {"next": td}
+
+    def get_reward(td, actions):
+        calls["reward_actions"] = actions
+        return rew
+
+    env = u.ns(step=env_step, get_reward=get_reward, name="tsp")
+    pol = u.obj(BASEP, "ConstructivePolicy", encoder=lambda td: ("hidden", "init"), decoder=Decoder(), env_name="tsp",
+                temperature=1.0, tanh_clipping=0, mask_logits=True, train_decode_type="greedy", val_decode_type="greedy", test_decode_type="greedy")
+    u.inline((DEC, "get_decoding_strategy"), (DEC, "DecodingStrategy.__init__"), (DEC, "DecodingStrategy.pre_decoder_hook"), (DEC, "DecodingStrategy.post_decoder_hook"),
+             (DEC, "DecodingStrategy.step"), (DEC, "Greedy._step"), (DEC, "Evaluate._step"), (DEC, "DecodingStrategy.greedy"), (DEC, "get_log_likelihood"))
+    kw = dict(actions=given) if mode == "evaluate" else {}
+    # asserts are recorded, not proved: get_log_likelihood's `logprobs > -1000` sanity assert is a known finding of its own
+    # (a feasible action may have a smaller log-prob); the feasibility assert of Greedy is re-stated as a clause below
+    out = u.run(BASEP, "ConstructivePolicy.forward", td0, env, "train", selfobj=pol, record=False, asserts="record", **kw)
+    return dict(B=B, N=N, T=T, logits=logits, masks=masks, rew=rew, given=given, calls=calls, out=out)
+
+
+def _policy_unit(u, mode):
+    from . import decoding as D
+
+    m0 = D._K[0]
+    d = _policy_forward(u, mode)
+    B, N, T, out, calls = d["B"], d["N"], d["T"], d["out"], d["calls"]
+    LP = [u.ctx.inputs[f"logprobs{m0 + 1 + t}"][0] for t in range(T)]   # the step distributions (process_logits contract), in call order
+    b = u.idx((B,), "b")
+    j = u.idx((N,), "j")
+    acts = out["actions"]
+    same_tensor(u, "policy.actions.shape", acts, (B, T), lambda bb, tt: acts.at(bb, tt))
+    u.prove("policy.decoder-called-once-per-step", calls["dec"] == T and len(calls["steps"]) == T)
+    tot = 0
+    for t in range(T):
+        a = acts.at(b, t)
+        # the action returned for step t is the one the environment was stepped with at step t
+        u.prove(f"policy.step{t}.returned-action-is-executed-action", calls["steps"][t].at(b) == a)
+        if mode == "evaluate":
+            u.prove(f"policy.step{t}.evaluates-given-action", a == d["given"].at(b, t))
+        else:
+            u.prove(f"policy.step{t}.greedy-feasible-maximiser", AND(d["masks"][t].at(b, a), LP[t](zint(b), a) >= LP[t](zint(b), zint(j))))
+        tot = tot + LP[t](zint(b), a)
+    u.prove("policy.log-likelihood-is-sum-of-step-logprobs-of-returned-actions", out["log_likelihood"].at(b) == tot)
+    u.prove("policy.reward-of-returned-actions", AND(calls["reward_actions"] is acts, out["reward"].at(b) == d["rew"].at(b)))
+    u.canary("policy.log-likelihood-first-step-only", out["log_likelihood"].at(b) == LP[0](zint(b), acts.at(b, 0)))
+
+
+@unit("policy.forward.greedy", file=BASEP, func="ConstructivePolicy.forward", props=("C11", "C14"))
+def _(u):
+    _policy_unit(u, "greedy")
+
+
+@unit("policy.forward.evaluate", file=BASEP, func="ConstructivePolicy.forward", props=("C11",))
+def _(u):
+    _policy_unit(u, "evaluate")
